@@ -144,18 +144,54 @@ def _history(rng, kind, p0, nmax):
         int(rng.choice([0, 1, 2, 3, 5, 8, 12, 16, 20]))
     hist = []
     L = p0["wallThickness"] if kind == "g3" else p0["positionFalloff"]
+    # current scales, as far as the generator knows them (None after an 'eom' op, which
+    # computes its own): needed for rescales *close to the current values*
+    cur = None
+    if kind == "g3":
+        cur = {"tIn": p0["tailLengthInside"], "tOut": p0["tailLengthOutside"],
+               "L": p0["wallThickness"], "c": p0["wallCenter"]}
+    curT = p0["momentumFalloffT"]
+
+    def tiny():
+        return float(rng.choice([0.0, 10 ** rng.uniform(-13, -4)]))
+
     for _ in range(n):
         u = rng.random()
+        if u < 0.10 and kind == "g3" and cur is not None:
+            # near-identity rescale (a solver iteration that has almost converged): every
+            # scale changes by a relative 0..1e-4, the centre by a fraction of the
+            # *thickness* (it may be far from the origin).  Admissible by construction:
+            # thickness shrinks, tails grow.
+            Ln = cur["L"] * (1 - tiny())
+            cn = cur["c"] + cur["L"] * float(rng.choice([-1, 1])) * 10 ** rng.uniform(-6, -1)
+            cur = {"tIn": cur["tIn"] * (1 + tiny()), "tOut": cur["tOut"] * (1 + tiny()),
+                   "L": Ln, "c": float(cn)}
+            L = Ln
+            hist.append({"op": "pos3", **cur, "kw": bool(rng.random() < 0.3), "near": True})
+            continue
+        if u < 0.14 and kind == "g3":
+            # thin wall far from the origin, then moved by a few per cent of its thickness
+            Lf = _scale(rng)
+            s_, r_ = p0["smoothing"], p0["ratioPointsWall"]
+            cf = float(rng.choice([-1, 1]) * Lf * 10 ** rng.uniform(1, 4))
+            cur = {"tIn": _tail(rng, Lf, s_, r_), "tOut": _tail(rng, Lf, s_, r_), "L": Lf,
+                   "c": cf}
+            L = Lf
+            hist.append({"op": "pos3", **cur, "kw": False, "far": True})
+            continue
         if u < 0.28:
-            hist.append({"op": "mom", "T": _scale(rng), "kw": bool(rng.random() < 0.3)})
+            Tn_ = _scale(rng) if rng.random() < 0.7 else float(curT * (1 + tiny()))
+            curT = Tn_
+            hist.append({"op": "mom", "T": Tn_, "kw": bool(rng.random() < 0.3)})
         elif kind == "g1":
             L = _scale(rng) if rng.random() < 0.5 else float(L * 10 ** rng.uniform(-0.5, 0.5))
             hist.append({"op": "pos1", "L": L, "kw": bool(rng.random() < 0.3)})
         elif u < 0.70:
             L = _scale(rng) if rng.random() < 0.5 else float(L * 10 ** rng.uniform(-0.5, 0.5))
             s, r = p0["smoothing"], p0["ratioPointsWall"]
-            hist.append({"op": "pos3", "tIn": _tail(rng, L, s, r), "tOut": _tail(rng, L, s, r),
-                         "L": L, "c": _centre(rng, L), "kw": bool(rng.random() < 0.3)})
+            cur = {"tIn": _tail(rng, L, s, r), "tOut": _tail(rng, L, s, r), "L": L,
+                   "c": _centre(rng, L)}
+            hist.append({"op": "pos3", **cur, "kw": bool(rng.random() < 0.3)})
         elif u < 0.88:
             # the real EOM._updateGrid body computes thickness, centre and tails itself;
             # widths/offsets/velocity/mean free path are drawn so that the tails it will
@@ -170,6 +206,7 @@ def _history(rng, kind, p0, nmax):
                          "mfp": float(Lg * 10 ** rng.uniform(-1, math.log10(1e3 / gam))),
                          "offEq": bool(rng.random() < 0.6)})
             L = Lg
+            cur = None
         else:
             s, r = p0["smoothing"], p0["ratioPointsWall"]
             Lb = _scale(rng)
